@@ -71,6 +71,7 @@ type deferRec struct {
 }
 
 type enc struct {
+	mentioned map[string]bool // field names some clause of the contract mentions (lazily built)
 	p   *Program
 	fn  *ssa.Function
 	c   *FuncContract
@@ -541,7 +542,7 @@ func (e *enc) storeValue(st *State, addr, val string, t types.Type) {
 	case *types.Struct:
 		si := structSort(t)
 		for i := 0; i < u.NumFields(); i++ {
-			e.storeValue(st, e.mkFld(addr, fieldID(u.Field(i))), fmt.Sprintf("(%s %s)", si.fields[i], val), u.Field(i).Type())
+			e.storeValue(st, e.mkFld(addr, fieldID(u.Field(i))), projField(si, i, val), u.Field(i).Type())
 		}
 		return
 	case *types.Array:
